@@ -58,6 +58,18 @@ def run(ctx):
         vlib.trace_check(ctx, "TraceThrottler", os.path.basename(cfgp), tr, "throttler", key_fn=key,
                          selftest=corrupt if first else None, timeout=900, files={cfgp: os.path.basename(cfgp)})
         first = False
+        # Delay with a context that ends before the delay: the context's error is expected; a nil return is legal only
+        # when both timers had expired before the goroutine ran -- the exception on a loaded machine, the rule if the
+        # context were ignored
+        early = late_nil = 0
+        for r in vlib.read_nd(tr):
+            if r.get("ev") == "delay" and r.get("ctx", 0) > 0 and 0 <= r.get("level", 0) < len(delays) and r["ctx"] < delays[r["level"]]:
+                early += 1
+                late_nil += 0 if r.get("err") else 1
+        ctx.add("delay_calls_with_early_context", early)
+        ctx.add("of_which_returned_nil_after_the_full_delay", late_nil)
+        if early >= 10 and late_nil * 4 > early:
+            ctx.violation("throttler:delay:context-ignored", "Delay returned nil after the full delay in %d of %d calls whose context ended earlier" % (late_nil, early), {"trace": tr})
         ctx.add("traces_validated_against_impl", runs)
         ctx.sample(vlib.read_nd(tr)[1:8])
     ctx.cov["exhaustive"] = False
